@@ -137,7 +137,8 @@ fn cmd_check(args: &[String]) -> i32 {
         base_seed: seed,
         label: spec.label,
         wall_cap: Duration::from_secs(if tier == "thorough" { 3600 } else { 600 }),
-        run_timeout: Duration::from_secs(30),
+        // hang detection only; C04's bulk-loaded runs execute multi-second joins five times over
+        run_timeout: Duration::from_secs(if prop == "C04" { 600 } else { 60 }),
         max_samples: 3,
     };
     let (p2, g2) = (prop.clone(), guards.clone());
@@ -239,6 +240,15 @@ fn main() {
         Some("check") => cmd_check(&args),
         Some("replay") => cmd_replay(args.get(2).expect("replay <file>")),
         Some("digest") => cmd_digest(&args),
+        Some("one") => {
+            // run a single generated run by run seed (development aid; use with VERIF_TRACE=1)
+            let prop = arg(&args, "--property").expect("--property");
+            let seed: u64 = arg(&args, "--run-seed").expect("--run-seed").parse().expect("u64");
+            let guards = Findings::load().active_guards();
+            let r = props::run(&prop, seed, &guards);
+            println!("steps={} violation={:?}", r.steps, r.violation.map(|v| v.oracle));
+            0
+        }
         _ => {
             eprintln!("usage: dbsim repl | check --property Cxx [--tier quick|thorough] [--runs N] | replay <file> | digest --property Cxx [--runs N]");
             2
